@@ -237,35 +237,48 @@ def return_cache_harness(ctx):
 
 
 def make_return_cache_harness(ctx):
+    """E: body outcome x what the body did THROUGH THE CACHE (added an edge / nothing / added and discarded an edge) x whether it also
+    touched the original CFG object behind the cache's back"""
     P = ctx.prove
     s1, t = gtirb.CodeBlock(offset=0, size=1), gtirb.CodeBlock(offset=2, size=1)
     e0 = gtirb.Edge(s1, t, gtirb.Edge.Label(gtirb.EdgeType.Return))
     e1 = gtirb.Edge(t, s1, gtirb.Edge.Label(gtirb.EdgeType.Fallthrough))
-    for body in ("returns", "raises", "mutates-original", "replaces-ir-cfg", "nested"):
-        ir = gtirb.IR()
-        ir.cfg.add(e0)
-        old = ir.cfg
-        raised = None
-        try:
-            with CA.make_return_cache(ir) as rc:
-                inside_ok = ir.cfg is rc and isinstance(rc, ReturnEdgeCache) and set(rc) == {e0}
-                rc.add(e1)
-                if body == "raises":
-                    raise KeyError("boom")
-                if body == "mutates-original":
-                    old.add(gtirb.Edge(s1, s1, gtirb.Edge.Label(gtirb.EdgeType.Branch)))
-                if body == "replaces-ir-cfg":
-                    ir.cfg = gtirb.CFG()
-                if body == "nested":
-                    with CA.make_return_cache(ir) as rc2:
-                        inside_ok = inside_ok and rc2 is rc
-        except Exception as ex:
-            raised = ex
-        P("make_return_cache/inside-ir.cfg-is-the-cache-with-the-original-edges", z3.BoolVal(bool(inside_ok)), note=body)
-        P("make_return_cache/on-every-exit-the-callers-cfg-object-holds-the-final-edges", z3.BoolVal(ir.cfg is old and set(old) == {e0, e1}), note=body)
-        want = {"returns": None, "nested": None, "raises": KeyError, "mutates-original": CA.CFGModifiedError, "replaces-ir-cfg": CA.CFGModifiedError}[body]
-        P("make_return_cache/CFGModifiedError-exactly-when-the-original-was-modified-or-replaced",
-          z3.BoolVal((raised is None and want is None) or (want is not None and type(raised) is want)), note="%s -> %s" % (body, type(raised).__name__))
+    stray = gtirb.Edge(s1, s1, gtirb.Edge.Label(gtirb.EdgeType.Branch))
+    for body in ("returns", "raises", "mutates-original", "mutates-original-and-raises", "replaces-ir-cfg", "nested"):
+        for through_cache in ("adds-an-edge", "nothing", "adds-and-discards"):
+            ir = gtirb.IR()
+            ir.cfg.add(e0)
+            old = ir.cfg
+            raised = None
+            final = None
+            try:
+                with CA.make_return_cache(ir) as rc:
+                    inside_ok = ir.cfg is rc and isinstance(rc, ReturnEdgeCache) and set(rc) == {e0}
+                    if through_cache != "nothing":
+                        rc.add(e1)
+                    if through_cache == "adds-and-discards":
+                        rc.discard(e1)
+                    final = set(rc)
+                    if body.startswith("mutates-original"):
+                        old.add(stray)
+                    if body in ("raises", "mutates-original-and-raises"):
+                        raise KeyError("boom")
+                    if body == "replaces-ir-cfg":
+                        ir.cfg = gtirb.CFG()
+                    if body == "nested":
+                        with CA.make_return_cache(ir) as rc2:
+                            inside_ok = inside_ok and rc2 is rc
+            except Exception as ex:
+                raised = ex
+            note = "%s / %s" % (body, through_cache)
+            P("make_return_cache/inside-ir.cfg-is-the-cache-with-the-original-edges", z3.BoolVal(bool(inside_ok)), note=note)
+            P("make_return_cache/on-every-exit-the-callers-cfg-object-holds-the-final-edges", z3.BoolVal(ir.cfg is old and set(old) == final),
+              note="%s: restored %d edges, the cache ended with %d" % (note, len(set(old)), len(final or ())))
+            P("make_return_cache/return-edge-view-of-the-restored-cfg-equals-a-scan", z3.BoolVal({e for e in old if e.label.type == gtirb.EdgeType.Return} == {e0}), note=note)
+            want = {"returns": None, "nested": None, "raises": KeyError, "mutates-original-and-raises": KeyError, "mutates-original": CA.CFGModifiedError,
+                    "replaces-ir-cfg": CA.CFGModifiedError}[body]
+            P("make_return_cache/CFGModifiedError-exactly-when-the-original-was-modified-or-replaced",
+              z3.BoolVal((raised is None and want is None) or (want is not None and type(raised) is want)), note="%s -> %s" % (note, type(raised).__name__))
     ctx.cover("enumerated")
 
 
